@@ -859,6 +859,13 @@ class name_BradleyTerry(BallotGenerator):
         current_ranking = list(seed_ballot.ranking)
         num_candidates = len(current_ranking)
 
+        # with fewer than two ranked candidates there is no adjacent pair to swap,
+        # so the chain never leaves the seed ballot
+        if num_candidates < 2:
+            ranking = current_ranking + ([zero_cands] if len(zero_cands) > 0 else [])
+            pp = PreferenceProfile(ballots=[Ballot(ranking=ranking)] * num_ballots)
+            return pp.condense_ballots()
+
         # presample swap indices
         swap_indices = [
             (j1, j1 + 1)
